@@ -10,7 +10,8 @@
 (*   "empty"}; host in {"configured","localhost-name","foreign","empty",   *)
 (*   "whitelisted"}; origin/referer in {"none","own","foreign",            *)
 (*   "unparsable","whitelisted"}; token in {"none","valid","expired",      *)
-(*   "garbage","tampered","older"}; ctype in {"json","json-charset",       *)
+(*   "garbage","tampered","older","forged-empty-key","forged-other-key"};   *)
+(*   ctype in {"json","json-charset",       *)
 (*   "text","none"}.                                                       *)
 (* cfg: enabled (set of API sets), disableCSRF, disableHeaderCheck,        *)
 (*      creds (TRUE when username/password are configured).                *)
